@@ -807,12 +807,21 @@ impl World {
       })
       .collect();
 
-    Some(Transaction {
+    let mut tx = Transaction {
       version: Version(2),
       lock_time: LockTime::ZERO,
       input,
       output,
-    })
+    };
+    // A non-coinbase transaction can only repeat a txid by spending a
+    // duplicated coinbase in the same way; BIP30 forbids it. Only duplicate
+    // coinbases (the historic exception) are generated, see DESIGN §12.
+    let mut nonce = 0u32;
+    while self.txs.contains_key(&tx.compute_txid()) {
+      nonce += 1;
+      tx.lock_time = LockTime::from_consensus(nonce);
+    }
+    Some(tx)
   }
 
   fn realize_coinbase(&self, spec: &CoinbaseSpec, height: u32, fees: u64) -> Transaction {
